@@ -367,4 +367,541 @@ theorem Dead.foldl {k : Nat} (l : List Item) : ∀ (j : Mon), Dead k j → (l.fo
     · exact hne seq t url body e.symm
     · exact ih (j.step it) hd' hok seq t url body hm
 
+/-! ### a property of the monitor's entry for SID k that survives everything except what is meant to change it -/
+
+/-- the entry of SID k exists and satisfies P -/
+def Ent (P : SubMon → Prop) (k : Nat) (subs : List SubMon) : Prop := ∃ s, subs[k]? = some s ∧ P s
+
+/-- P does not depend on the credit, the expiry or the alive flag of an entry -/
+structure Stable (P : SubMon → Prop) : Prop where
+  credit : ∀ (s : SubMon) (c : Nat), P s → P { s with credit := c }
+  expires : ∀ (s : SubMon) (e : Int), P s → P { s with expires := e }
+  dead : ∀ (s : SubMon), P s → P { s with alive := false }
+
+theorem Ent.map {P : SubMon → Prop} {k : Nat} {subs : List SubMon} (h : Ent P k subs) (f : SubMon → SubMon)
+    (hf : ∀ s, P s → P (f s)) : Ent P k (subs.map f) := by
+  obtain ⟨s, hs, hp⟩ := h
+  exact ⟨f s, by rw [List.getElem?_map, hs]; rfl, hf s hp⟩
+
+theorem Ent.modify {P : SubMon → Prop} {k : Nat} {subs : List SubMon} (h : Ent P k subs) (k' : Nat) (f : SubMon → SubMon)
+    (hf : ∀ s, P s → P (f s)) : Ent P k (subs.modify k' f) := by
+  obtain ⟨s, hs, hp⟩ := h
+  unfold Ent
+  rw [List.getElem?_modify, hs]
+  by_cases e : k' = k
+  · exact ⟨f s, by simp [e], hf s hp⟩
+  · exact ⟨s, by simp [e], hp⟩
+
+theorem Ent.modify_ne {P : SubMon → Prop} {k : Nat} {subs : List SubMon} (h : Ent P k subs) (k' : Nat) (f : SubMon → SubMon)
+    (hne : k' ≠ k) : Ent P k (subs.modify k' f) := by
+  obtain ⟨s, hs, hp⟩ := h
+  exact ⟨s, by rw [List.getElem?_modify_ne _ _ hne]; exact hs, hp⟩
+
+theorem Ent.append {P : SubMon → Prop} {k : Nat} {subs : List SubMon} (h : Ent P k subs) (x : SubMon) :
+    Ent P k (subs ++ [x]) := by
+  obtain ⟨s, hs, hp⟩ := h
+  exact ⟨s, by rw [List.getElem?_append_left (List.getElem?_eq_some_iff.mp hs).1]; exact hs, hp⟩
+
+theorem Ent.onResp {P : SubMon → Prop} (hs : Stable P) {k : Nat} {j : Mon} (h : Ent P k j.subs)
+    (o : Op) (st : Nat) (sid : Option Nat) (g : Option Int) : Ent P k (j.onResp o st sid g).subs := by
+  unfold Mon.onResp
+  repeat' split
+  all_goals (first
+    | exact h
+    | exact h.append _
+    | exact h.modify _ _ (fun s hp => hs.expires s _ hp)
+    | exact h.modify _ _ (fun s hp => hs.dead s hp))
+
+theorem Ent.assign {P : SubMon → Prop} {k : Nat} {j : Mon} (h : Ent P k j.subs) (x : Nat) (v : Val) :
+    Ent P k (j.assign x v).subs := by
+  unfold Mon.assign
+  repeat' split
+  all_goals exact h
+
+theorem Ent.assignMany {P : SubMon → Prop} {k : Nat} (l : List (Nat × Val)) : ∀ {j : Mon}, Ent P k j.subs →
+    Ent P k (l.foldl (fun j p => j.assign p.1 p.2) j).subs := by
+  induction l with
+  | nil => intro j h; exact h
+  | cons p l ih => intro j h; exact ih (h.assign p.1 p.2)
+
+theorem Ent.lapse {P : SubMon → Prop} (hs : Stable P) {k : Nat} {j : Mon} (h : Ent P k j.subs) (t : Int) :
+    Ent P k (j.lapse t).subs := by
+  unfold Mon.lapse
+  split
+  · exact h.map _ (fun s hp => hs.credit s 0 hp)
+  · exact h
+
+/-- every step that is neither a NOTIFY to k nor a key preset of k keeps the entry's property -/
+theorem Ent.step {P : SubMon → Prop} (hs : Stable P) {k : Nat} {j : Mon} (h : Ent P k j.subs) (it : Item)
+    (hn : ∀ seq t url body, it ≠ .obs (.notify k seq t url body)) (hk : ∀ n, it ≠ .op (.setKey k n)) :
+    Ent P k (j.step it).subs := by
+  cases it with
+  | op o =>
+    have hc : Ent P k j.close.subs := h.map _ (fun s hp => hs.credit s 0 hp)
+    cases o with
+    | adv dt => exact hc
+    | set x v => exact hc.assign x v
+    | setMany l => exact Ent.assignMany l hc
+    | subscribe sid cb to => exact hc
+    | unsubscribe sid => exact hc
+    | done n => exact hc
+    | fail n => exact hc
+    | setKey sid n =>
+      have hne : sid ≠ k := fun e => hk n (by rw [e])
+      exact hc.modify_ne sid _ hne
+  | obs o =>
+    cases o with
+    | resp st sid g =>
+      show Ent P k (j.onObs (.resp st sid g)).subs
+      simp only [Mon.onObs]
+      cases ha : j.awaiting with
+      | none => exact h
+      | some o => exact h.onResp hs o st sid g
+    | notify sid seq t url body =>
+      have hne : sid ≠ k := fun e => hn seq t url body (by rw [e])
+      show Ent P k ((j.lapse t).notifyAt sid seq t url body).subs
+      have h0 := h.lapse hs t
+      generalize j.lapse t = j0 at h0 ⊢
+      simp only [Mon.notifyAt]
+      cases hsd : j0.subs[sid]? with
+      | none => exact h0
+      | some s =>
+        obtain ⟨s0, hs0, hp⟩ := h0
+        exact ⟨s0, by show (j0.subs.set sid _)[k]? = _; rw [List.getElem?_set_ne hne]; exact hs0, hp⟩
+    | trig x t =>
+      show Ent P k ((j.lapse t).trigAt x t).subs
+      exact (h.lapse hs t).map _ (fun s hp => hs.credit s _ hp)
+    | ret sid => exact h
+    | exc sid => exact h
+
+theorem Ent.foldl {P : SubMon → Prop} (hs : Stable P) {k : Nat} (l : List Item) : ∀ (j : Mon), Ent P k j.subs →
+    (∀ it ∈ l, (∀ seq t url body, it ≠ .obs (.notify k seq t url body)) ∧ (∀ n, it ≠ .op (.setKey k n))) →
+    Ent P k (l.foldl Mon.step j).subs := by
+  induction l with
+  | nil => intro j h _; exact h
+  | cons it l ih =>
+    intro j h hl
+    obtain ⟨h1, h2⟩ := hl it List.mem_cons_self
+    exact ih (j.step it) (h.step hs it h1 h2) (fun it' hm => hl it' (List.mem_cons_of_mem _ hm))
+
+/-- an accepted NOTIFY to k carries the key the monitor expects, and moves it on by the property's law -/
+theorem notify_key {j : Mon} {k seq : Nat} {t : Int} {url : Str} {body : List (Nat × Str)}
+    (h : (j.step (.obs (.notify k seq t url body))).ok = true) :
+    (∀ s, Ent (fun sm => sm.nextSeq = s) k j.subs → seq = s)
+    ∧ Ent (fun sm => sm.nextSeq = specNextKey seq) k (j.step (.obs (.notify k seq t url body))).subs := by
+  have h' : ((j.lapse t).notifyAt k seq t url body).ok = true := h
+  have hl : ∀ s, Ent (fun sm => sm.nextSeq = s) k j.subs → Ent (fun sm => sm.nextSeq = s) k (j.lapse t).subs :=
+    fun s he => he.lapse ⟨fun _ _ hp => hp, fun _ _ hp => hp, fun _ hp => hp⟩ t
+  show _ ∧ Ent _ k ((j.lapse t).notifyAt k seq t url body).subs
+  generalize j.lapse t = j0 at h' hl ⊢
+  simp only [Mon.notifyAt] at h' ⊢
+  cases hs : j0.subs[k]? with
+  | none => rw [hs] at h'; simp [fail] at h'
+  | some sm =>
+    rw [hs] at h'
+    simp only [Bool.and_eq_true, beq_iff_eq] at h'
+    have hseq : seq = sm.nextSeq := h'.2.1.1.1.2
+    refine ⟨fun s he => ?_, ?_⟩
+    · obtain ⟨sm', hsm', hp⟩ := hl s he
+      rw [hs] at hsm'; cases hsm'
+      rw [hseq]; exact hp
+    · have hlt : k < j0.subs.length := (List.getElem?_eq_some_iff.mp hs).1
+      exact ⟨_, by show (j0.subs.set k _)[k]? = _; rw [List.getElem?_set_self hlt], rfl⟩
+
+/-! ### the monitor's table of SIDs only grows -/
+
+theorem len_onResp (j : Mon) (o : Op) (st : Nat) (sid : Option Nat) (g : Option Int) :
+    j.subs.length ≤ (j.onResp o st sid g).subs.length := by
+  unfold Mon.onResp
+  repeat' split
+  all_goals simp [check, fail, markDead]
+
+theorem len_step (j : Mon) (it : Item) : j.subs.length ≤ (j.step it).subs.length := by
+  cases it with
+  | op o =>
+    have hc : j.close.subs.length = j.subs.length := by simp [Mon.close]
+    cases o with
+    | adv dt => exact Nat.le_of_eq hc.symm
+    | set x v =>
+      show _ ≤ (j.close.assign x v).subs.length
+      unfold Mon.assign; repeat' split
+      all_goals exact Nat.le_of_eq hc.symm
+    | setMany l =>
+      have : ∀ (l : List (Nat × Val)) (j : Mon), (l.foldl (fun j p => j.assign p.1 p.2) j).subs = j.subs := by
+        intro l
+        induction l with
+        | nil => intro j; rfl
+        | cons p l ih =>
+          intro j
+          show (l.foldl _ (j.assign p.1 p.2)).subs = _
+          rw [ih]; unfold Mon.assign; repeat' split
+          all_goals rfl
+      show _ ≤ (l.foldl _ j.close).subs.length
+      rw [this]; exact Nat.le_of_eq hc.symm
+    | subscribe sid cb to => exact Nat.le_of_eq hc.symm
+    | unsubscribe sid => exact Nat.le_of_eq hc.symm
+    | done n => exact Nat.le_of_eq hc.symm
+    | fail n => exact Nat.le_of_eq hc.symm
+    | setKey sid n => show _ ≤ (j.close.subs.modify sid _).length; rw [List.length_modify]; exact Nat.le_of_eq hc.symm
+  | obs o =>
+    cases o with
+    | resp st sid g =>
+      show _ ≤ (j.onObs (.resp st sid g)).subs.length
+      simp only [Mon.onObs]
+      cases ha : j.awaiting with
+      | none => exact Nat.le_refl _
+      | some o => exact len_onResp j o st sid g
+    | notify sid seq t url body =>
+      show _ ≤ ((j.lapse t).notifyAt sid seq t url body).subs.length
+      have hl : (j.lapse t).subs.length = j.subs.length := by unfold Mon.lapse; split <;> simp
+      rw [← hl]
+      generalize j.lapse t = j0
+      simp only [Mon.notifyAt]
+      cases j0.subs[sid]? with
+      | none => exact Nat.le_refl _
+      | some s => simp
+    | trig x t =>
+      show _ ≤ ((j.lapse t).trigAt x t).subs.length
+      have hl : (j.lapse t).subs.length = j.subs.length := by unfold Mon.lapse; split <;> simp
+      simp [Mon.trigAt, hl]
+    | ret sid => exact Nat.le_refl _
+    | exc sid => exact Nat.le_refl _
+
+theorem len_foldl (l : List Item) : ∀ (j : Mon), j.subs.length ≤ (l.foldl Mon.step j).subs.length := by
+  induction l with
+  | nil => intro j; exact Nat.le_refl _
+  | cons it l ih => intro j; exact Nat.le_trans (len_step j it) (ih _)
+
+/-- an accepted 200 to a new SUBSCRIBE: the SID is the next index of the table and the entry starts at key 0 -/
+theorem new_sub_accepted {j : Mon} {cb to : Option Str} {k : Nat} {g : Option Int}
+    (h : ((j.step (.op (.subscribe .absent cb to))).step (.obs (.resp 200 (some k) g))).ok = true) :
+    k = j.subs.length
+    ∧ ((j.step (.op (.subscribe .absent cb to))).step (.obs (.resp 200 (some k) g))).subs.length = k + 1
+    ∧ Ent (fun sm => sm.nextSeq = 0) k ((j.step (.op (.subscribe .absent cb to))).step (.obs (.resp 200 (some k) g))).subs := by
+  obtain ⟨ja, hja⟩ : ∃ ja : Mon, ja = { j.close with awaiting := some (.subscribe .absent cb to) } := ⟨_, rfl⟩
+  have hsubs : ja.subs = j.close.subs := by rw [hja]
+  have hlen : ja.subs.length = j.subs.length := by rw [hsubs]; simp [Mon.close]
+  have hstep : ((j.step (.op (.subscribe .absent cb to))).step (.obs (.resp 200 (some k) g))).subs
+      = (ja.onResp (.subscribe .absent cb to) 200 (some k) g).subs := by rw [hja]; rfl
+  have hok : (ja.onResp (.subscribe .absent cb to) 200 (some k) g).ok = true := by rw [hja]; exact h
+  rw [hstep]
+  cases g with
+  | none => simp [Mon.onResp, fail] at hok
+  | some gr =>
+    by_cases hk : k = ja.subs.length
+    · have hr : (ja.onResp (.subscribe .absent cb to) 200 (some k) (some gr)).subs
+          = ja.subs ++ [SubMon.mk true (callbackUrl cb) 0 (ja.now + gr * usPerS) false 0 []] := by
+        simp [Mon.onResp, hk]
+      rw [hr]
+      refine ⟨hk.trans hlen, by simp [hk], ⟨SubMon.mk true (callbackUrl cb) 0 (ja.now + gr * usPerS) false 0 [], ?_, rfl⟩⟩
+      rw [hk, List.getElem?_append_right (Nat.le_refl _)]; simp
+    · simp [Mon.onResp, hk, fail] at hok
+
+/-! ### the monitor's `cur`, `evented`, clock are plain functions of the operations seen so far -/
+
+/-- the values after the assignments among the items (an assignment to a variable that does not exist changes nothing) -/
+def valuesAfter : List (Option Val) → List Item → List (Option Val)
+  | cur, [] => cur
+  | cur, .op (.set x v) :: r => valuesAfter (cur.set x (some v)) r
+  | cur, .op (.setMany l) :: r => valuesAfter (l.foldl (fun c p => c.set p.1 (some p.2)) cur) r
+  | cur, _ :: r => valuesAfter cur r
+
+/-- virtual time elapsed: the sum of the clock advances among the items -/
+def elapsed : List Item → Int
+  | [] => 0
+  | .op (.adv dt) :: r => dt + elapsed r
+  | _ :: r => elapsed r
+
+theorem assign_cur (j : Mon) (x : Nat) (v : Val) :
+    (j.assign x v).cur = j.cur.set x (some v) ∧ (j.assign x v).evented = j.evented := by
+  unfold Mon.assign
+  by_cases h1 : j.cur[x]? = some (some v)
+  · rw [if_pos h1]
+    refine ⟨?_, rfl⟩
+    apply List.ext_getElem?
+    intro i
+    by_cases hi : x = i
+    · subst hi
+      rw [List.getElem?_set_self (List.getElem?_eq_some_iff.mp h1).1, h1]
+    · rw [List.getElem?_set_ne hi]
+  · rw [if_neg h1]
+    by_cases h2 : x < j.cur.length
+    · rw [if_pos h2]; exact ⟨rfl, rfl⟩
+    · rw [if_neg h2]
+      exact ⟨(List.set_eq_of_length_le (by omega)).symm, rfl⟩
+
+theorem assignMany_cur (l : List (Nat × Val)) : ∀ (j : Mon),
+    (l.foldl (fun j p => j.assign p.1 p.2) j).cur = l.foldl (fun c p => c.set p.1 (some p.2)) j.cur
+    ∧ (l.foldl (fun j p => j.assign p.1 p.2) j).evented = j.evented := by
+  induction l with
+  | nil => intro j; exact ⟨rfl, rfl⟩
+  | cons p l ih =>
+    intro j
+    obtain ⟨a1, a2⟩ := assign_cur j p.1 p.2
+    obtain ⟨b1, b2⟩ := ih (j.assign p.1 p.2)
+    exact ⟨by show (l.foldl _ (j.assign p.1 p.2)).cur = l.foldl _ (j.cur.set p.1 (some p.2)); rw [b1, a1], b2.trans a2⟩
+
+theorem onResp_cur (j : Mon) (o : Op) (st : Nat) (sid : Option Nat) (g : Option Int) :
+    (j.onResp o st sid g).cur = j.cur ∧ (j.onResp o st sid g).evented = j.evented := by
+  unfold Mon.onResp
+  repeat' split
+  all_goals simp [check, fail, markDead]
+
+/-- after any items (accepted or not) the monitor's values, flags and operation window are these functions of the items -/
+theorem foldl_cur (l : List Item) : ∀ (j : Mon),
+    (l.foldl Mon.step j).cur = valuesAfter j.cur l ∧ (l.foldl Mon.step j).evented = j.evented
+    ∧ (l.foldl Mon.step j).target = j.target + elapsed l := by
+  induction l with
+  | nil => intro j; exact ⟨rfl, rfl, by simp [elapsed]⟩
+  | cons it l ih =>
+    intro j
+    obtain ⟨i1, i2, i3⟩ := ih (j.step it)
+    have hstep : (j.step it).cur = (match it with
+          | .op (.set x v) => j.cur.set x (some v)
+          | .op (.setMany l) => l.foldl (fun c p => c.set p.1 (some p.2)) j.cur
+          | _ => j.cur)
+        ∧ (j.step it).evented = j.evented
+        ∧ (j.step it).target = j.target + (match it with | .op (.adv dt) => (dt : Int) | _ => 0) := by
+      cases it with
+      | op o =>
+        cases o with
+        | adv dt => exact ⟨rfl, rfl, rfl⟩
+        | set x v => exact ⟨(assign_cur j.close x v).1, (assign_cur j.close x v).2, by
+            have := (assign_frame j.close x v).2.1; show (j.close.assign x v).target = _; rw [this]; simp [Mon.close]⟩
+        | setMany l' => exact ⟨(assignMany_cur l' j.close).1, (assignMany_cur l' j.close).2, by
+            have := (assignMany_frame l' j.close).2.1; show (l'.foldl _ j.close).target = _; rw [this]; simp [Mon.close]⟩
+        | subscribe sid cb to => exact ⟨rfl, rfl, by simp [Mon.step, Mon.beginOp, Mon.close]⟩
+        | unsubscribe sid => exact ⟨rfl, rfl, by simp [Mon.step, Mon.beginOp, Mon.close]⟩
+        | done n => exact ⟨rfl, rfl, by simp [Mon.step, Mon.beginOp, Mon.close]⟩
+        | fail n => exact ⟨rfl, rfl, by simp [Mon.step, Mon.beginOp, Mon.close]⟩
+        | setKey sid n => exact ⟨rfl, rfl, by simp [Mon.step, Mon.beginOp, Mon.close]⟩
+      | obs o =>
+        cases o with
+        | resp st sid g =>
+          show (j.onObs (.resp st sid g)).cur = j.cur ∧ (j.onObs (.resp st sid g)).evented = j.evented
+            ∧ (j.onObs (.resp st sid g)).target = j.target + 0
+          simp only [Mon.onObs]
+          cases ha : j.awaiting with
+          | none => exact ⟨rfl, rfl, by simp [fail]⟩
+          | some o => exact ⟨(onResp_cur j o st sid g).1, (onResp_cur j o st sid g).2, by
+              have := (onResp_frame j o st sid g).2.1; simp [this]⟩
+        | notify sid seq t url body =>
+          show ((j.lapse t).notifyAt sid seq t url body).cur = j.cur ∧ ((j.lapse t).notifyAt sid seq t url body).evented = j.evented
+            ∧ ((j.lapse t).notifyAt sid seq t url body).target = j.target + 0
+          have hl : (j.lapse t).cur = j.cur ∧ (j.lapse t).evented = j.evented ∧ (j.lapse t).target = j.target := by
+            unfold Mon.lapse; split <;> exact ⟨rfl, rfl, rfl⟩
+          rw [← hl.1, ← hl.2.1, ← hl.2.2]
+          generalize j.lapse t = j0
+          simp only [Mon.notifyAt]
+          cases j0.subs[sid]? with
+          | none => exact ⟨rfl, rfl, by simp [fail]⟩
+          | some s => exact ⟨rfl, rfl, by simp⟩
+        | trig x t =>
+          show ((j.lapse t).trigAt x t).cur = j.cur ∧ ((j.lapse t).trigAt x t).evented = j.evented
+            ∧ ((j.lapse t).trigAt x t).target = j.target + 0
+          have hl : (j.lapse t).cur = j.cur ∧ (j.lapse t).evented = j.evented ∧ (j.lapse t).target = j.target := by
+            unfold Mon.lapse; split <;> exact ⟨rfl, rfl, rfl⟩
+          exact ⟨hl.1, hl.2.1, by simp [Mon.trigAt, hl.2.2]⟩
+        | ret sid => exact ⟨rfl, rfl, by simp [Mon.step, Mon.onObs]⟩
+        | exc sid => exact ⟨rfl, rfl, by simp [Mon.step, Mon.onObs]⟩
+    obtain ⟨s1, s2, s3⟩ := hstep
+    refine ⟨?_, i2.trans s2, ?_⟩
+    · show (l.foldl Mon.step (j.step it)).cur = valuesAfter j.cur (it :: l)
+      rw [i1, s1]
+      cases it with
+      | op o => cases o <;> rfl
+      | obs o => rfl
+    · show (l.foldl Mon.step (j.step it)).target = j.target + elapsed (it :: l)
+      rw [i3, s3]
+      cases it with
+      | op o => cases o <;> simp [elapsed] <;> omega
+      | obs o => simp [elapsed]
+
+/-! ### the expiry of SID k only moves when a renewal of k is answered -/
+
+def ExpP (e : Int) (sm : SubMon) : Prop := sm.expires = e ∧ sm.gotInitial = true
+
+structure ExpInv (k : Nat) (e : Int) (j : Mon) : Prop where
+  ent : Ent (ExpP e) k j.subs
+  aw : ∀ cb to, j.awaiting ≠ some (.subscribe (.known k) cb to)
+
+theorem expP_onResp {k : Nat} {e : Int} {j : Mon} (h : Ent (ExpP e) k j.subs) (o : Op) (st : Nat) (sid : Option Nat)
+    (g : Option Int) (hne : ∀ cb to, o ≠ .subscribe (.known k) cb to) : Ent (ExpP e) k (j.onResp o st sid g).subs := by
+  unfold Mon.onResp
+  repeat' split
+  all_goals (first
+    | exact h
+    | exact h.append _
+    | exact h.modify _ _ (fun s hp => hp)
+    | (refine h.modify_ne _ _ ?_; intro e'; subst e'; exact hne _ _ rfl))
+
+theorem assign_awaiting (j : Mon) (x : Nat) (v : Val) : (j.assign x v).awaiting = j.awaiting := by
+  unfold Mon.assign
+  repeat' split
+  all_goals rfl
+
+theorem assignMany_awaiting (l : List (Nat × Val)) : ∀ (j : Mon),
+    (l.foldl (fun j p => j.assign p.1 p.2) j).awaiting = j.awaiting := by
+  induction l with
+  | nil => intro j; rfl
+  | cons p l ih => intro j; exact (ih _).trans (assign_awaiting j p.1 p.2)
+
+theorem ExpInv.step {k : Nat} {e : Int} {j : Mon} (h : ExpInv k e j) (it : Item)
+    (hne : ∀ cb to, it ≠ .op (.subscribe (.known k) cb to)) : ExpInv k e (j.step it) := by
+  have hcred : ∀ (s : SubMon) (c : Nat), ExpP e s → ExpP e { s with credit := c } := fun _ _ hp => hp
+  cases it with
+  | op o =>
+    have hc : Ent (ExpP e) k j.close.subs := h.ent.map _ (fun s hp => hcred s 0 hp)
+    have hca : j.close.awaiting = j.awaiting := rfl
+    cases o with
+    | adv dt => exact ⟨hc, h.aw⟩
+    | set x v => exact ⟨hc.assign x v, fun cb to => by rw [show (j.step (.op (.set x v))).awaiting = j.awaiting from assign_awaiting j.close x v]; exact h.aw cb to⟩
+    | setMany l => exact ⟨Ent.assignMany l hc, fun cb to => by rw [show (j.step (.op (.setMany l))).awaiting = j.awaiting from assignMany_awaiting l j.close]; exact h.aw cb to⟩
+    | subscribe sid cb to =>
+      refine ⟨hc, fun cb' to' e' => ?_⟩
+      have : (some (Op.subscribe sid cb to) : Option Op) = some (.subscribe (.known k) cb' to') := e'
+      cases this
+      exact hne cb to rfl
+    | unsubscribe sid => exact ⟨hc, fun cb' to' e' => by cases e'⟩
+    | done n => exact ⟨hc, h.aw⟩
+    | fail n => exact ⟨hc, h.aw⟩
+    | setKey sid n => exact ⟨hc.modify sid _ (fun s hp => hp), h.aw⟩
+  | obs o =>
+    cases o with
+    | resp st sid g =>
+      show ExpInv k e (j.onObs (.resp st sid g))
+      simp only [Mon.onObs]
+      cases ha : j.awaiting with
+      | none => exact ⟨h.ent, by show ∀ cb to, (fail j).awaiting ≠ _; intro cb to; rw [show (fail j).awaiting = j.awaiting from rfl, ha]; exact fun e' => by cases e'⟩
+      | some o =>
+        refine ⟨expP_onResp h.ent o st sid g (fun cb to e' => h.aw cb to (by rw [ha, e'])), fun cb to e' => by cases e'⟩
+    | notify sid seq t url body =>
+      show ExpInv k e ((j.lapse t).notifyAt sid seq t url body)
+      have h0 : ExpInv k e (j.lapse t) := by
+        refine ⟨?_, ?_⟩
+        · unfold Mon.lapse; split
+          · exact h.ent.map _ (fun s hp => hcred s 0 hp)
+          · exact h.ent
+        · unfold Mon.lapse; split <;> exact h.aw
+      generalize j.lapse t = j0 at h0 ⊢
+      unfold Mon.notifyAt
+      cases hsd : j0.subs[sid]? with
+      | none => exact ⟨h0.ent, h0.aw⟩
+      | some s =>
+        refine ⟨?_, h0.aw⟩
+        obtain ⟨s0, hs0, hp⟩ := h0.ent
+        by_cases e' : sid = k
+        · subst e'
+          rw [hsd] at hs0; cases hs0
+          have hlt : sid < j0.subs.length := (List.getElem?_eq_some_iff.mp hsd).1
+          exact ⟨{ s with nextSeq := specNextKey seq, gotInitial := true,
+                          credit := if s.gotInitial then s.credit - 1 else s.credit, lastVals := j0.cur },
+            by show (j0.subs.set sid _)[sid]? = _; rw [List.getElem?_set_self hlt], ⟨hp.1, rfl⟩⟩
+        · exact ⟨s0, by show (j0.subs.set sid _)[k]? = _; rw [List.getElem?_set_ne e']; exact hs0, hp⟩
+    | trig x t =>
+      show ExpInv k e ((j.lapse t).trigAt x t)
+      refine ⟨?_, ?_⟩
+      · have : Ent (ExpP e) k (j.lapse t).subs := by
+          unfold Mon.lapse; split
+          · exact h.ent.map _ (fun s hp => hcred s 0 hp)
+          · exact h.ent
+        exact this.map _ (fun s hp => hcred s _ hp)
+      · show ∀ cb to, (j.lapse t).awaiting ≠ _
+        unfold Mon.lapse; split <;> exact h.aw
+    | ret sid => exact h
+    | exc sid => exact h
+
+theorem ExpInv.foldl {k : Nat} {e : Int} (l : List Item) : ∀ (j : Mon), ExpInv k e j →
+    (∀ it ∈ l, ∀ cb to, it ≠ .op (.subscribe (.known k) cb to)) → ExpInv k e (l.foldl Mon.step j) := by
+  induction l with
+  | nil => intro j h _; exact h
+  | cons it l ih =>
+    intro j h hl
+    exact ih (j.step it) (h.step it (hl it List.mem_cons_self)) (fun it' hm => hl it' (List.mem_cons_of_mem _ hm))
+
+/-- an accepted NOTIFY to an entry that has had its initial event is sent before the entry's expiry -/
+theorem notify_before_expiry {k : Nat} {e : Int} {j : Mon} {seq : Nat} {t : Int} {url : Str} {body : List (Nat × Str)}
+    (hi : Ent (ExpP e) k j.subs) (h : (j.step (.obs (.notify k seq t url body))).ok = true) : t < e := by
+  have h' : ((j.lapse t).notifyAt k seq t url body).ok = true := h
+  have h0 : Ent (ExpP e) k (j.lapse t).subs := by
+    unfold Mon.lapse; split
+    · exact hi.map _ (fun s hp => hp)
+    · exact hi
+  generalize j.lapse t = j0 at h' h0
+  obtain ⟨s, hs, hp1, hp2⟩ := h0
+  simp only [Mon.notifyAt, hs, hp2, Bool.and_eq_true, Bool.not_true, Bool.false_or, decide_eq_true_eq] at h'
+  rw [← hp1]; exact h'.2.2.1
+
+/-- the body of an accepted NOTIFY passes the body test against the monitor's current values -/
+theorem notify_body {j : Mon} {k seq : Nat} {t : Int} {url : Str} {body : List (Nat × Str)}
+    (h : (j.step (.obs (.notify k seq t url body))).ok = true) : bodyOk j.evented j.cur body = true := by
+  have h' : ((j.lapse t).notifyAt k seq t url body).ok = true := h
+  have hl : (j.lapse t).cur = j.cur ∧ (j.lapse t).evented = j.evented := by
+    unfold Mon.lapse; split <;> exact ⟨rfl, rfl⟩
+  rw [← hl.1, ← hl.2]
+  generalize j.lapse t = j0 at h' ⊢
+  simp only [Mon.notifyAt] at h'
+  cases hs : j0.subs[k]? with
+  | none => rw [hs] at h'; simp [fail] at h'
+  | some sm =>
+    rw [hs] at h'
+    simp only [Bool.and_eq_true] at h'
+    exact h'.2.1.2
+
+/-- an accepted 200 to a renewal of SID k: from then on k's expiry is the end of the previous operation + granted -/
+theorem renew_accepted {j : Mon} {k : Nat} {cb to : Option Str} {a : Option Nat} {g : Int}
+    (h : ((j.step (.op (.subscribe (.known k) cb to))).step (.obs (.resp 200 a (some g)))).ok = true) :
+    ExpInv k (j.target + g * usPerS) ((j.step (.op (.subscribe (.known k) cb to))).step (.obs (.resp 200 a (some g)))) := by
+  obtain ⟨ja, hja⟩ : ∃ ja : Mon, ja = { j.close with awaiting := some (.subscribe (.known k) cb to) } := ⟨_, rfl⟩
+  have hnow : ja.now = j.target := by rw [hja]; rfl
+  have hres : (j.step (.op (.subscribe (.known k) cb to))).step (.obs (.resp 200 a (some g)))
+      = { (ja.onResp (.subscribe (.known k) cb to) 200 a (some g)) with awaiting := none } := by rw [hja]; rfl
+  rw [hres] at h ⊢
+  have hok : (ja.onResp (.subscribe (.known k) cb to) 200 a (some g)).ok = true := h
+  have hsubs : ja.subs = j.subs.map (fun s => { s with credit := 0 }) := by rw [hja]; rfl
+  cases hs : ja.subs[k]? with
+  | none => simp [Mon.onResp, hs, check, refused] at hok
+  | some s =>
+    cases ha : s.alive with
+    | false => simp [Mon.onResp, hs, ha, check, refused] at hok
+    | true =>
+      cases a with
+      | none => simp [Mon.onResp, hs, ha, fail] at hok
+      | some k' =>
+        by_cases hk : k' = k
+        · subst hk
+          -- the entry has had its initial event: the previous operation closed accepted
+          have hclose : (j.ok && quiescentOk { j with now := j.target }) = true := by
+            have : ja.ok = true := by simpa [Mon.onResp, hs, ha] using hok
+            rw [hja] at this; exact this
+          have hq : quiescentOk { j with now := j.target } = true := by
+            simp only [Bool.and_eq_true] at hclose; exact hclose.2
+          have hgi : s.gotInitial = true := by
+            rw [hsubs, List.getElem?_map] at hs
+            cases hj : j.subs[k']? with
+            | none => rw [hj] at hs; cases hs
+            | some s0 =>
+              rw [hj] at hs
+              simp only [Option.map_some, Option.some.injEq] at hs
+              subst hs
+              unfold quiescentOk at hq
+              simp only [Bool.and_eq_true, List.all_eq_true] at hq
+              have := hq.2 s0 (List.mem_of_getElem? hj)
+              have ha0 : s0.alive = true := ha
+              simp only [ha0, Bool.not_true, Bool.false_or, Bool.and_eq_true] at this
+              exact this.1
+          refine ⟨?_, fun cb' to' e' => by cases e'⟩
+          have hlt : k' < ja.subs.length := (List.getElem?_eq_some_iff.mp hs).1
+          refine ⟨{ s with expires := ja.now + g * usPerS }, ?_, by show ja.now + _ = _; rw [hnow], hgi⟩
+          show (ja.onResp (.subscribe (.known k') cb to) 200 (some k') (some g)).subs[k']? = _
+          simp [Mon.onResp, hs, ha, List.getElem?_modify_eq]
+        · simp [Mon.onResp, hs, ha, hk, fail] at hok
+
+theorem ok_prefix {ev : List Bool} {rate : List Nat} {dflt : List (Option Val)} {pre rest : List Item}
+    (h : ok ev rate dflt (pre ++ rest) = true) :
+    (rest.foldl Mon.step (pre.foldl Mon.step (Mon.init ev rate dflt))).ok = true := by
+  unfold ok at h
+  have := close_ok_mono _ h
+  rwa [List.foldl_append] at this
+
 end Upnp.C15
